@@ -398,4 +398,3 @@ package parser
 //@ requires b != nil
 //@ modifies *b
 //@ ensures one_value: len(values) != 1 ==> err != nil && *b == old(*b)
-
